@@ -23,10 +23,10 @@ vars == <<brk, fl, live, lastret>>
 WS == 8                    \* rounding granule in units (64 bytes)
 FLSZ == 2                  \* sizeof(struct __freelist) in units
 Round(n) == LET u == (n + 7) \div 8            \* bytes -> units
-                r == IF u % WS = 0 THEN u ELSE u + (WS - u % WS)
+                r == IF u % WS = 0 THEN u ELSE u + (WS - (u % WS))
             IN IF r < FLSZ - 1 THEN FLSZ - 1 ELSE r
 \* the code rounds the byte count: len % 64 # 0 => round up; then len >= 8 bytes
-RoundBytes(n) == LET r == IF n % 64 = 0 THEN n ELSE n + (64 - n % 64) IN (IF r < 8 THEN 8 ELSE r) \div 8
+RoundBytes(n) == LET r == IF n % 64 = 0 THEN n ELSE n + (64 - (n % 64)) IN (IF r < 8 THEN 8 ELSE r) \div 8
 
 Elems(s) == {s[i] : i \in 1..Len(s)}
 RemoveIdx(s, i) == SubSeq(s, 1, i-1) \o SubSeq(s, i+1, Len(s))
